@@ -649,6 +649,8 @@ def c12(ctx):
     for l in gen.local_strings("quick", ctx.rng)[:: (40 if ctx.tier == "quick" else 4)]:
         if all(b < 128 for b in l) and b'"' not in l and b"\\" not in l and b"@" not in l and 0 not in l:
             plain.append(l + b"@b.com"); plain.append(l + b"@[1.2.3.4]")
+    for w in gen.words([b"a", b".", b"1"], 6, 1):
+        plain.append(w + b"@b.com")
     plain = list(dict.fromkeys(plain))
     for t in (0, 1):
         res = {}
@@ -1247,6 +1249,24 @@ def c11(ctx):
     for r, cl, sl in zip(tbl + tbl, c, sp):
         if cl.split(" ")[1] != sl.split(" ")[1]:
             ctx.S("a row of data/punycode.csv is not found with the class the generator documents", op="T %s" % hx(r[0]), impl=cl, csv=sl)
+    # raw.csv (U-labels) names the same TLD set as punycode.csv (A-labels): row by row through the IDN library, no duplicates
+    import csv as _csv
+    with open(os.path.join(d, "data/raw.csv"), newline="", encoding="utf-8") as f:
+        raw = [r[0].encode() for r in list(_csv.reader(f))[1:]]
+    with open(os.path.join(d, "data/punycode.csv"), newline="", encoding="utf-8") as f:
+        pun = [r[0].encode() for r in list(_csv.reader(f))[1:]]
+    if len(set(raw)) != len(raw):
+        dup = sorted({x for x in raw if raw.count(x) > 1})
+        ctx.S("data/raw.csv names a TLD twice (so the test list does not name the library's TLD set)", op="raw.csv duplicates", names=[x.decode() for x in dup[:5]])
+    uops = ["U 0 %s" % hx(b"x." + r) for r in raw]
+    cu, lu = ctx.run("rawcsv", "default", uops)
+    ctx.evals += len(uops)
+    lean_in = open(os.path.join(ctx.scr.dir, "rawcsv_default.leanin")).read().split("\n")[1:]
+    for r, p_, li in zip(raw, pun, lean_in):
+        m_ = re.search(r" @ (-?\d+) (\S+)", li)
+        a = bytes.fromhex(m_.group(2)) if (m_ and m_.group(1) == "0" and m_.group(2) != "-") else None
+        if a != b"x." + p_:
+            ctx.S("a row of data/raw.csv is not the U-label of the same row of data/punycode.csv", op="U 0 %s" % hx(b"x." + r), raw=r.decode(errors="replace"), punycode=p_.decode(), converted=repr(a))
     # no domain absent from the CSV is found: near misses and byte aliases of every row, straight into is_tld
     labels = [l for l in dict.fromkeys(gen.tld_labels([r[0] for r in tbl], ctx.tier, ctx.rng)) if l and 0 not in l]
     ct = ctx.K("is_tld", "default", ["T %s" % hx(l) for l in labels], nontrivial=lambda op, ln: True)
